@@ -49,6 +49,11 @@ type c29Base struct {
 	toks   [][2]int // byte ranges of the tokens the parser shifts
 	text   string
 	clean  bool // accepted without handler calls: every token is shifted exactly once
+	// problemNode: name of the node every error alternative of the grammar reports ("" unknown). If the
+	// uncancelled run recovered to acceptance, every token outside the ranges of these nodes was shifted
+	// (skipped tokens are covered by the error symbol), which still gives a lower bound on shifts.
+	problemNode string
+	shifted     []int // shifted[i]: number of certainly shifted tokens among toks[:i]
 }
 
 func (b *c29Base) init() {
@@ -60,6 +65,24 @@ func (b *c29Base) init() {
 		b.prefix[i+1] = h
 	}
 	b.clean = b.obs.OK && len(b.obs.EH) == 0
+	b.shifted = nil
+	if b.clean || (b.obs.OK && b.problemNode != "") {
+		skipped := make([]bool, len(b.toks))
+		for _, e := range b.events {
+			if e.T == b.problemNode && !b.clean {
+				for i := b.tokenAt(e.S); i < len(b.toks) && b.toks[i][0] < e.E; i++ {
+					skipped[i] = true
+				}
+			}
+		}
+		b.shifted = make([]int, len(b.toks)+1)
+		for i := range b.toks {
+			b.shifted[i+1] = b.shifted[i]
+			if !skipped[i] {
+				b.shifted[i+1]++
+			}
+		}
+	}
 }
 
 // tokenAt returns the index of the first token starting at or after offset.
@@ -120,19 +143,24 @@ func c29Judge(c *fw.Ctx, who, what string, k int, b *c29Base, o *c29Obs, cancelO
 	} else if same {
 		c.Count("completed_like_uncancelled", 1)
 	}
-	// bounded stopping, in shifted tokens: only meaningful when every token is shifted
-	if cancelOff >= 0 && b.clean {
+	// bounded stopping, in shifted tokens: needs a lower bound on the tokens shifted after the cancel point
+	if cancelOff >= 0 && b.shifted != nil {
 		idx := b.tokenAt(cancelOff)
-		remaining := len(b.toks) - idx
+		remaining := b.shifted[len(b.toks)] - b.shifted[idx]
 		if remaining >= 514 {
 			c.Count("bounded_stop_checks", 1)
+			if !b.clean {
+				c.Count("bounded_stop_checks_on_recovered_inputs", 1)
+			}
 			if !isCtx {
-				c.Violate(who+"bounded-stop/finished-without-noticing-cancellation/"+what, desc()+fmt.Sprintf("\n%d tokens remained after the cancel point (offset %d, token #%d of %d)", remaining, cancelOff, idx, len(b.toks)), files)
+				c.Violate(who+"bounded-stop/finished-without-noticing-cancellation/"+what, desc()+fmt.Sprintf("\n%d certainly shifted tokens remained after the cancel point (offset %d, token #%d of %d)", remaining, cancelOff, idx, len(b.toks)), files)
 				ok = false
 			} else if o.N > 0 {
-				limit := b.toks[min(idx+513, len(b.toks)-1)][1]
+				// the token after which 513 certainly shifted tokens have passed
+				lim := sort.Search(len(b.toks), func(i int) bool { return b.shifted[i+1]-b.shifted[idx] >= 513 })
+				limit := b.toks[min(lim, len(b.toks)-1)][1]
 				if o.Last.E > limit {
-					c.Violate(who+"bounded-stop/events-reported-beyond-512-tokens/"+what, desc()+fmt.Sprintf("\ncancel point: offset %d = token #%d; last event %s[%d,%d) ends after token #%d (offset %d)", cancelOff, idx, o.Last.T, o.Last.S, o.Last.E, idx+513, limit), files)
+					c.Violate(who+"bounded-stop/events-reported-beyond-512-tokens/"+what, desc()+fmt.Sprintf("\ncancel point: offset %d = token #%d; last event %s[%d,%d) ends after token #%d (offset %d)", cancelOff, idx, o.Last.T, o.Last.S, o.Last.E, lim, limit), files)
 					ok = false
 				}
 			}
@@ -537,6 +565,21 @@ func c29ShippedInputs(r *rand.Rand, parser string, n int) []string {
 			}
 			out = append(out, s)
 		}
+		if parser == "js" {
+			// long inputs with a recoverable syntax error every few dozen tokens (several poll periods)
+			broken := []string{"a = ;\n", "x = (1 + ;\n", "foo(1, , 2;\n", "var = 5;\n", "b = 1 +* 2;\n", "if (x {} ;\n"}
+			valid := []string{"foo(1, 2, 3);\n", "a = b + c * d;\n", "var q = [1, 2, 3];\n", "if (a) { b(); } else { c(); }\n", "function f(x, y) { return x + y; }\n"}
+			for i := 0; i < n/10+3; i++ {
+				var b strings.Builder
+				for k := 150 + r.Intn(700); k > 0; k-- {
+					b.WriteString(broken[r.Intn(len(broken))])
+					for j := 1 + r.Intn(4); j > 0; j-- {
+						b.WriteString(valid[r.Intn(len(valid))])
+					}
+				}
+				out = append(out, "/*dialect0*/"+b.String())
+			}
+		}
 	}
 	return out
 }
@@ -562,6 +605,9 @@ func c29ShippedCase(c *fw.Ctx, parser string) {
 		o := recgram.SOpts{Parser: parser, EH: -1, KeepEvents: true, MaxEvents: 400*(len(text)+2) + 1000}
 		if parser == "js" {
 			o.Dialect = i % 3 // inputs are assembled per dialect
+			if strings.HasPrefix(text, "/*dialect0*/") {
+				o.Dialect = 0
+			}
 		}
 		if i < 30 {
 			c.Note(map[string]string{"input.txt": text, "parser.txt": fmt.Sprintf("%s dialect %d", parser, o.Dialect)})
@@ -573,7 +619,13 @@ func c29ShippedCase(c *fw.Ctx, parser string) {
 			continue
 		}
 		b := &c29Base{obs: obsFromRun(run), events: run.Events, toks: recgram.ShippedTokens(parser, o.Dialect, text), text: text}
+		if parser == "js" || parser == "tm" {
+			b.problemNode = "SyntaxProblem" // the node of every error alternative in js.tm and textmapper.tm
+		}
 		b.init()
+		if !b.clean && b.obs.OK && len(b.obs.EH) >= 5 {
+			c.Count("shipped_"+parser+"_inputs_with_5plus_recovered_errors", 1)
+		}
 		c.Count("uncancelled_runs", 1)
 		c.Count("shipped_"+parser+"_uncancelled_polls_total", int64(run.Polls))
 		if b.clean {
@@ -640,7 +692,7 @@ func c29Run(c *fw.Ctx) {
 func init() {
 	fw.Register(&fw.Check{
 		ID:          "C29",
-		Rule:        "generated cases: statement/expression skeleton grammars printed with cancellable = true and varying cancellableFetch, tokenStream, (?= ...) lookaheads over whole parenthesised lists (shift counter in the session, advanced by lookahead shifts), nested lookaheads (a predicate inside the list another predicate scans) with recursiveLookaheads, lookahead decisions with three alternatives ((?= A), (?= !A & B), (?= !A & !B): chains of two lookahead calls), error recovery, table options; sentences of 10-100, 300-1500 and 2000-5000 tokens plus mutated ones. Shipped cases: js (3 dialects), tm, test parsers in-process on concatenated test-suite snippets / repository grammars (extended with extra rules) of up to several thousand tokens. Every input is first parsed uncancelled (reference), then once per schedule: cancellation at every ctx.Done() poll number k up to the uncancelled poll count (a counting context closes its channel inside the k-th poll), from inside the listener at events 1, 2, every 97th and the last, before the start, and asynchronously from a second goroutine (one generated case is built with -race; a race report is a violation). Offline monitor per cancelled parse: result is the context error or (result, value, event count+hash) equals the uncancelled run; events and handler calls are a prefix of the uncancelled ones (rolling hash); if the uncancelled run shifted every token (accepted, no handler call) and >= 514 tokens remained after the cancel point (lexer offset recorded at the poll/event; for shipped token-stream parsers read from the stream's lexer by reflection), the result must be the context error and the last event must end within 513 tokens of the cancel point. Non-trivial/distinct: grammar with >=50 judged cancelled parses; shipped input with >=1 poll",
+		Rule:        "generated cases: statement/expression skeleton grammars printed with cancellable = true and varying cancellableFetch, tokenStream, (?= ...) lookaheads over whole parenthesised lists (shift counter in the session, advanced by lookahead shifts), nested lookaheads (a predicate inside the list another predicate scans) with recursiveLookaheads, lookahead decisions with three alternatives ((?= A), (?= !A & B), (?= !A & !B): chains of two lookahead calls), error recovery, table options; sentences of 10-100, 300-1500 and 2000-5000 tokens plus mutated ones. Shipped cases: js (3 dialects), tm, test parsers in-process on concatenated test-suite snippets / repository grammars (extended with extra rules) of up to several thousand tokens. Every input is first parsed uncancelled (reference), then once per schedule: cancellation at every ctx.Done() poll number k up to the uncancelled poll count (a counting context closes its channel inside the k-th poll), from inside the listener at events 1, 2, every 97th and the last, before the start, and asynchronously from a second goroutine (one generated case is built with -race; a race report is a violation). Offline monitor per cancelled parse: result is the context error or (result, value, event count+hash) equals the uncancelled run; events and handler calls are a prefix of the uncancelled ones (rolling hash); if a lower bound on the shifted tokens is known (accepted without handler call: every token; shipped js/tm inputs that recovered to acceptance, among them long js inputs with a recoverable error every few statements: every token outside SyntaxProblem nodes) and >= 514 such tokens remained after the cancel point (lexer offset recorded at the poll/event; for shipped token-stream parsers read from the stream's lexer by reflection), the result must be the context error and the last event must end within 513 tokens of the cancel point. Non-trivial/distinct: grammar with >=50 judged cancelled parses; shipped input with >=1 poll",
 		Assumptions: []string{"the uncancelled run of the same parser is the reference (its correctness is C01/C02)", "token positions of generated inputs come from the renderer; for shipped parsers from a fresh run of the shipped lexer"},
 		Cases: func(tier string) int {
 			a, b, s := c29Layout(tier)
@@ -652,6 +704,6 @@ func init() {
 		MinNontrivial: func(tier string) int { return 40 },
 		RequiredCounters: []string{"cancelled_parses_poll", "cancelled_parses_event", "cancelled_parses_before-start", "cancelled_parses_async", "race_detector_runs",
 			"returned_ctx_error", "completed_like_uncancelled", "bounded_stop_checks", "inputs_2000plus_tokens", "inputs_under_100_tokens",
-			"shipped_js_cancelled_parses", "shipped_tm_cancelled_parses", "shipped_test_cancelled_parses"},
+			"shipped_js_cancelled_parses", "bounded_stop_checks_on_recovered_inputs", "shipped_js_inputs_with_5plus_recovered_errors", "shipped_tm_cancelled_parses", "shipped_test_cancelled_parses"},
 	})
 }
